@@ -10,6 +10,7 @@ import (
 	"fmt"
 	"io"
 	"math"
+	"reflect"
 
 	"gorgonia.org/tensor"
 )
@@ -74,6 +75,9 @@ func (s Shape) String() string {
 }
 
 var ErrInvalidType = errors.New("invalid type")
+
+// ErrInvalidShape is returned when the data of a tensor does not match its dims.
+var ErrInvalidShape = errors.New("tensor data does not match its dims")
 
 // Dim is a dimension.
 type Dim struct {
@@ -210,7 +214,22 @@ func TensorFromProto(tp *TensorProto) (tensor.Tensor, error) {
 		return nil, err
 	}
 
-	return tensor.New(tensor.WithShape(getDims(tp)...), tensor.WithBacking(values)), nil
+	dims := getDims(tp)
+	nExpected := 1
+
+	for _, dim := range dims {
+		if dim < 0 {
+			return nil, ErrInvalidShape
+		}
+
+		nExpected *= dim
+	}
+
+	if reflect.ValueOf(values).Len() != nExpected {
+		return nil, ErrInvalidShape
+	}
+
+	return tensor.New(tensor.WithShape(dims...), tensor.WithBacking(values)), nil
 }
 
 func getFloatData(tp *TensorProto) ([]float32, error) {
